@@ -98,11 +98,8 @@ func c12Oracle(res *lab.Result, m *lab.Model, h *lab.History) []lab.Violation {
 		vs = append(vs, v)
 	}
 	vs = append(vs, h.CheckResume("C12")...)
-	// after the restart ran to a graceful end, nothing may have been skipped
-	restarted := restartOK(res)
-	if restarted && res.FinalStatus.String() == "UserStopped" && h.AllEmitted() {
-		vs = append(vs, h.CheckAllHandled("C12")...)
-	}
+	// "without a gap": CheckResume (no reopen past an unhandled record) plus the C01/C04 clauses
+	// above on the whole log, which includes the restarted run
 	if forceOK(res) && !restartOK(res) && !res.Wedged {
 		forceRet := 0
 		for _, cr := range res.Ctl {
